@@ -7,7 +7,8 @@ TECHNIQUE = 'deductive verification: tag routing contracts over the mux tag map 
 LEVEL_TEXT = ('Multiplexed: the tag written in the frame header is the key under which the call\'s stack is registered (and the value of the message\'s tag property); a tagged reply is delivered to the stack registered under that tag and to no other, '
               'and a frame for a tag nobody waits for is delivered to nobody and changes nothing; ReadHeader inverts _BuildHeader on the tag; with C11 (a leased tag is carried by no other unanswered request) a reply frame tagged t reaches the unique request written with t. '
               'Serial: a request arriving while one is in flight is rejected without writing; after a timeout the connection is closed (epoch advanced) before the slot is freed, so a late reply cannot be read by the next request; '
-              'the reply handed to the stack is the body read after that request\'s own write.')
+              'the reply handed to the stack is the body read after that request\'s own write.'
+              ' ThriftMuxMessageSerializerSink.AsyncProcessRequest marshals every call into a buffer of its own and forwards that buffer holding exactly this call\'s bytes, so a request parked in the transport cannot go out with another call\'s payload.')
 LEVEL_NOTE = ('Trusted: pyvc encoding, z3; the peer answers a tag at most once per connection and on the connection it was asked on; Thrift encodes/decodes faithfully; '
               'the proxy/dispatcher pass (method, args, kwargs) through unchanged is C20 (not yet under contract); pool exclusivity ("never lent twice") is C07.')
 ASSUMPTIONS = ['peer answers on the connection it was asked on']
